@@ -20,6 +20,11 @@
    * While: loop variables are initialised and updated simultaneously (evaluate all, then assign);
      fuel bounds the number of iterations of every loop (each loop gets `fuel` iterations);
      a Break that escapes every loop is Stuck.
+   * StructInit: structs are immutable values; the reference to a new struct is an opaque function of its type
+     and fields (two structs with the same fields are not distinguished: the fragment has no comparison of
+     references).  `struct_world` says that a field load from such a reference gives the field back.
+   * LateInitDeclaration binds the name to 0, LateInitAssignment re-binds it (the environment is flat, so an
+     assignment inside a branch is seen after it).
    Observable behaviour of a run = outcome: return value + call trace, or the kind of abnormal end + trace. *)
 From Coq Require Import ZArith NArith List Bool.
 Import ListNotations.
@@ -33,7 +38,8 @@ Record world := mkworld {
   w_call : trace -> N -> list Z -> option Z;
   w_str : name -> Z;
   w_i31 : Z -> Z;
-  w_prim : prim -> Z -> Z }.
+  w_prim : prim -> Z -> Z;
+  w_struct : N -> list Z -> Z }.      (* the reference to a new struct: a function of its type and field values *)
 
 Definition env := list (name * Z).
 
@@ -142,6 +148,9 @@ Section Exec.
         | RNext _ _ => RStuck
         | o => o
         end
+    | SStruct x tn es => RNext ((x, w_struct w tn (map (eval w en) es)) :: en) tr
+    | SLateDecl x => RNext ((x, 0) :: en) tr
+    | SLateAssign x e => RNext ((x, eval w en e) :: en) tr
     end.
 
   Definition exec_block : list stmt -> env -> trace -> res := exec_list exec.
@@ -174,6 +183,11 @@ Definition sem (strict : mode) (w : world) (f : func) (args : list Z) (fuel : na
 Definition refines (w : world) (f' f : func) : Prop :=
   forall args fuel v tr, sem All w f args fuel = Done v tr -> sem Wrap w f' args fuel = Done v tr.
 
+(* a field load from the reference to a new struct gives the field back (at every load type) *)
+Definition struct_world (w : world) : Prop :=
+  forall tn vs t i v, nth_error vs (N.to_nat i) = Some v ->
+    wrap32 (w_prim w (PIdx t i) (wrap32 (w_struct w tn vs))) = wrap32 v.
+
 (* renaming of variables (used by the alpha-invariance theorem) *)
 Definition ren_expr (r : name -> name) (e : expr) : expr :=
   match e with EVar x => EVar (r x) | _ => e end.
@@ -189,6 +203,9 @@ Fixpoint ren_stmt (r : name -> name) (s : stmt) : stmt :=
   | SSIf c inv ss => SSIf (ren_expr r c) inv (map (ren_stmt r) ss)
   | SBreak e => SBreak (ren_expr r e)
   | SWhile lvs ss bc => SWhile (map (ren_triple r) lvs) (map (ren_stmt r) ss) (option_map r bc)
+  | SStruct x tn es => SStruct (r x) tn (map (ren_expr r) es)
+  | SLateDecl x => SLateDecl (r x)
+  | SLateAssign x e => SLateAssign (r x) (ren_expr r e)
   end.
 Definition ren_func (r : name -> name) (f : func) : func :=
   mkfunc (map r (f_params f)) (map (ren_stmt r) (f_body f)) (ren_expr r (f_ret f)).
